@@ -71,8 +71,16 @@ def run_deck(ctx, stream, d, args, rng, npts=120, with_comp=True, check_wf=True,
     if check_wf:
         ok, rep = wf(ctx, res.t4)
         if not ok:
+            extra = {'class': 'not-wellformed'}
+            # the only defect is a BOUNDARY_CONDITION entry designating a surface that is not written (F2a/F2b seen
+            # from C08): say so in the signature, nothing else is attributed to that finding
+            import re as _re
+            lists = dict(_re.findall(r'(\w+) := (\[[^\]]*\]|true|false)', rep))
+            others = [k for k, v in lists.items() if k != 'bcUndefined' and v not in ('[]', 'false')]
+            if lists.get('bcUndefined', '[]') != '[]' and not others:
+                extra['bc'] = 'dangling'
             fails.append(fail('violation', 'written file is not structurally valid: ' + rep[:800],
-                              dict(sig0, **{'class': 'not-wellformed'}), replay))
+                              dict(sig0, **extra), replay))
     pts = G.sample_points(rng, npts)
     agree, skip, mm = monitor(ctx, d, res.t4, pts, with_comp=with_comp)
     if mm:
